@@ -236,6 +236,24 @@ def multi_fork_discard():
     return w.scenario("directed-multi-fork-discard", {"thr": 2, "seed": 23}, cmds)
 
 
+def long_headers():
+    """Announced header blobs with bytes after the 80 header bytes: the decoder reads the header and ignores
+    the rest, so they count as the header (first in the list, before / after the valid blob of the same
+    header, for a header on a fork, for an already stored one)."""
+    w = _w(24)
+    chain = _plain_chain(w, 1, 8, 1)
+    f1 = w.mine(chain[1], ntx=0, coinbase_out=cb(2, 3))
+    probe = [q("info"), q("utxos", addr=1, mc=-1), q("headers", s=0, e=-1), q("fees")]
+    cmds = [{"c": "tick", "dt": 100000}]
+    cmds += [{"c": "offer", "initial": complete([chain[0]], [item(chain[1], "long"), item(chain[1]), item(chain[2])])}, {"c": "hb"}, {"c": "hb"}] + probe
+    cmds += [{"c": "offer", "initial": complete([chain[1]], [item(chain[2]), item(chain[2], "long"), item(f1, "long"), item(chain[3])])}, {"c": "hb"}, {"c": "hb"}] + probe
+    cmds += [{"c": "offer", "initial": complete([chain[2], f1], [item(chain[5], "long"), item(chain[3], "long"), item(chain[4])])}, {"c": "hb"}, {"c": "hb"}] + probe
+    cmds += [{"c": "offer", "initial": complete([chain[3]], [item(chain[4], "long"), item(chain[5], "long"), item(chain[6], "long"), item(chain[7], "long")])}, {"c": "hb"}, {"c": "hb"}] + probe
+    for b in chain[4:]:
+        cmds += [{"c": "offer", "initial": complete([b])}, {"c": "hb"}, {"c": "hb"}] + probe
+    return w.scenario("directed-long-headers", {"thr": 3, "seed": 24, "gate": True}, cmds)
+
+
 def directed(pid, tier="quick"):
     S = []
     if pid in ("C01", "C05", "C06"):
@@ -252,6 +270,8 @@ def directed(pid, tier="quick"):
         S += [partial_split_points()]
     if pid == "C14":
         S += [gate_heavy_short()]
+    if pid in ("C14", "C10", "C20"):
+        S += [long_headers()]
     if pid in ("C08", "C03"):
         S += [threshold_raise_while_paused()]
     if pid in ("C20", "C05", "C01"):
@@ -552,7 +572,7 @@ def gate_history(seed, nblocks=14):
                 batch = batch + [f]
                 delivered_forks.add(f)
         if rng.random() < 0.15 and hdrs:
-            hdrs.insert(rng.randint(0, len(hdrs)), item(rng.choice(chain), rng.choice(gen.HEADER_DEFECTS)))
+            hdrs.insert(rng.randint(0, len(hdrs)), item(rng.choice(chain), rng.choice(gen.HEADER_DEFECTS + ["long", "long"])))
         cmds.append({"c": "offer", "initial": complete(batch, hdrs)})
         pos += k
         for _ in range(rng.randint(2, 4)):
